@@ -5,6 +5,7 @@ import (
 	"fmt"
 	"os"
 
+	"verif/harness/internal/c01"
 	"verif/harness/internal/c05"
 )
 
@@ -14,6 +15,8 @@ func main() {
 		os.Exit(2)
 	}
 	switch os.Args[1] {
+	case "c01":
+		os.Exit(c01.Main(os.Args[2:]))
 	case "c05":
 		os.Exit(c05.Main(os.Args[2:]))
 	}
